@@ -255,6 +255,12 @@ impl Phrase {
     /// field by the first character of variable `IFS`. If the variable is not
     /// set, fields are separated by a space. If the variable is set but has an
     /// empty value, fields are joined without separation.
+    ///
+    /// The separator is quoted if it is inserted between two quoted fields,
+    /// that is, after a field that ends with a quoting character and before a
+    /// field that starts with one. This is the case for the fields produced by
+    /// `"$@"`, so the separator is not taken for a pattern character when the
+    /// joined field is used as a pattern.
     pub fn ifs_join(self, vars: &VariableSet) -> Vec<AttrChar> {
         match self {
             Char(c) => vec![c],
@@ -284,7 +290,12 @@ impl Phrase {
                             + i.as_slice().len(),
                     );
                     for field in i {
-                        if let Some(separator) = separator {
+                        if let Some(mut separator) = separator {
+                            // Between the closing quote of a field and the
+                            // opening quote of the next one, as in `"$@"`, the
+                            // separator is part of the quoted string.
+                            separator.is_quoted = result.last().is_some_and(|c| c.is_quoting)
+                                && field.first().is_some_and(|c| c.is_quoting);
                             result.push(separator);
                         }
                         result.extend(field);
